@@ -6,6 +6,7 @@ package props
 import (
 	"bytes"
 	"encoding/json"
+	"fmt"
 
 	cbor "github.com/fxamacker/cbor/v2"
 	"github.com/veraison/eat"
@@ -85,6 +86,11 @@ func registerStandardExt() {
 			continue
 		}
 		if err := psatoken.RegisterProfile(p); err != nil {
+			panic(err)
+		}
+	}
+	if _, _, ok := psatoken.VerifRegistryEntry(ExtStrictName); !ok {
+		if err := psatoken.RegisterProfile(ExtStrictProfile{}); err != nil {
 			panic(err)
 		}
 	}
@@ -194,3 +200,41 @@ func (p BadProfile) GetClaims() psatoken.IClaims {
 
 // psaIClaims is the claims interface (alias for type assertions in the harness).
 type psaIClaims = psatoken.IClaims
+
+// ExtStrictClaims is a derived profile with its own, stricter Validate()
+// (the repository's ExampleClaims pattern): the client id must not be negative.
+type ExtStrictClaims struct {
+	psatoken.P2Claims
+	Extra *int64 `cbor:"-75100,keyasint,omitempty" json:"extra,omitempty"`
+}
+
+const ExtStrictName = "http://example.com/psa/strict"
+
+func (o *ExtStrictClaims) Validate() error {
+	if err := psatoken.ValidateClaims(o); err != nil {
+		return err
+	}
+	if id, err := o.GetClientID(); err == nil && id < 0 {
+		return fmt.Errorf("%w: this profile requires a non-negative client id", psatoken.ErrWrongSyntax)
+	}
+	return nil
+}
+func (o ExtStrictClaims) MarshalCBOR() ([]byte, error) {
+	return encoding.SerializeStructToCBOR(extEM, &o)
+}
+func (o *ExtStrictClaims) UnmarshalCBOR(d []byte) error {
+	return encoding.PopulateStructFromCBOR(extDM, d, o)
+}
+func (o ExtStrictClaims) MarshalJSON() ([]byte, error)  { return encoding.SerializeStructToJSON(&o) }
+func (o *ExtStrictClaims) UnmarshalJSON(d []byte) error { return encoding.PopulateStructFromJSON(d, o) }
+
+type ExtStrictProfile struct{}
+
+func (ExtStrictProfile) GetName() string { return ExtStrictName }
+func (ExtStrictProfile) GetClaims() psatoken.IClaims {
+	ep := eat.Profile{}
+	if err := ep.Set(ExtStrictName); err != nil {
+		panic(err)
+	}
+	return &ExtStrictClaims{P2Claims: psatoken.P2Claims{Profile: &ep, SwComponents: &psatoken.SwComponents[*psatoken.SwComponent]{}, CanonicalProfile: ExtStrictName}}
+}
